@@ -32,7 +32,7 @@ pub fn grow_cfg(second: u8) -> DbCfg {
 		2 => cols.push(ColCfg::btree()),
 		_ => {},
 	}
-	DbCfg { cols, zero_salt: true, sync_wal: true, sync_data: true }
+	DbCfg { cols, zero_salt: true, sync_wal: true, sync_data: true, always_flush: false }
 }
 
 pub fn scenario(max_blocks: usize, max_id: u16) -> impl Strategy<Value = Scenario> {
